@@ -29,7 +29,6 @@ import (
 	pb "github.com/jamf/regatta/regattapb"
 	_ "github.com/jamf/regatta/regattaserver/encoding/proto" // the codec regatta's own clients use
 	"google.golang.org/grpc/codes"
-	"google.golang.org/grpc/status"
 
 	"verifharness/internal/ev"
 	"verifharness/internal/model"
@@ -54,19 +53,50 @@ type witness struct {
 
 // shared is the cross-lane part: de-duplication of violation signatures and samples.
 type shared struct {
-	r        *ev.Run
-	mu       sync.Mutex
-	reported map[string]int
-	sampled  map[string]int
-	codes    map[string]map[string]int // rule -> observed status -> count
-	disabled map[string]bool           // request classes that crashed a server (not sent again)
-	picked   map[string][]any          // curated samples by class
+	r         *ev.Run
+	mu        sync.Mutex
+	reported  map[string]int
+	sampled   map[string]int
+	codes     map[string]map[string]int // rule -> observed status -> count
+	disabled  map[string]bool           // request classes that crashed a server (not sent again)
+	picked    map[string][]any          // curated samples by class
+	replaySig string                    // replay mode: the signature being reproduced
+	// avoidInverted: set after the race-build-only pebble assertion killed a server; reads with
+	// range_end <= key are then no longer generated (they would cost a restart each)
+	avoidInverted bool
+	noted         map[string]bool
+}
+
+func (s *shared) setAvoidInverted()    { s.mu.Lock(); s.avoidInverted = true; s.mu.Unlock() }
+func (s *shared) avoidsInverted() bool { s.mu.Lock(); defer s.mu.Unlock(); return s.avoidInverted }
+
+func (s *shared) noteOnce(key, text string) {
+	s.mu.Lock()
+	first := !s.noted[key]
+	s.noted[key] = true
+	s.mu.Unlock()
+	if first {
+		fmt.Println(text)
+		s.r.Note(text)
+	}
+}
+
+func pebbleBoundsInvariant(lines []string) bool {
+	for _, l := range lines {
+		if strings.Contains(l, "FATAL") && strings.Contains(l, "pebble@") && strings.Contains(l, "bound violation") {
+			return true
+		}
+	}
+	return false
 }
 
 func (s *shared) isDisabled(k string) bool { s.mu.Lock(); defer s.mu.Unlock(); return s.disabled[k] }
 func (s *shared) disable(k string)         { s.mu.Lock(); s.disabled[k] = true; s.mu.Unlock() }
 
 func (s *shared) violation(sig, what string, w witness) {
+	if s.replaySig != "" && sig != s.replaySig {
+		return // replay: the prefix of the stream meets other findings again, only the witnessed one counts
+	}
 	s.mu.Lock()
 	n := s.reported[sig]
 	s.reported[sig]++
@@ -169,16 +199,20 @@ func main() {
 	}()
 	defer cleanup()
 
-	sh := &shared{r: r, reported: map[string]int{}, sampled: map[string]int{}, codes: map[string]map[string]int{}, disabled: map[string]bool{}, picked: map[string][]any{}}
+	sh := &shared{r: r, reported: map[string]int{}, sampled: map[string]int{}, codes: map[string]map[string]int{}, disabled: map[string]bool{}, picked: map[string][]any{}, noted: map[string]bool{}}
 	base := scratchDir()
 
 	if r.Replay != "" {
 		var w witness
-		if _, err := r.ReadReplay(&w); err != nil {
+		sig, err := r.ReadReplay(&w)
+		if err != nil {
 			fmt.Fprintln(os.Stderr, "replay:", err)
 			cleanup()
 			os.Exit(2)
 		}
+		sh.replaySig = sig
+		// witnesses written while replaying go to the scratch directory, not over the originals
+		_ = os.Setenv("VERIF_OUT", filepath.Join(base, "replay-out"))
 		r.Seed = w.Seed
 		if w.Tier != "" {
 			r.Tier = w.Tier
@@ -187,6 +221,11 @@ func main() {
 		l := newLane(sh, w.Lane, bin, base)
 		l.run(laneCases(r), w.N)
 		cleanup()
+		if r.Violations() > 0 {
+			fmt.Printf("replay: REPRODUCED %s\n", sig)
+		} else {
+			fmt.Printf("replay: NOT reproduced: %s\n", sig)
+		}
 		r.Finish()
 	}
 
@@ -219,7 +258,7 @@ func main() {
 	r.Finish()
 }
 
-func laneCases(r *ev.Run) int { return r.Pick(750, 10000) }
+func laneCases(r *ev.Run) int { return r.Pick(1200, 10000) }
 
 // ---- lane ---------------------------------------------------------------------------------------
 
@@ -239,11 +278,11 @@ type lane struct {
 	restarts int
 	dead     bool // lane cannot continue
 
-	follWritesOff bool
-	follTimeouts  int
+	follWritesOff               bool
+	follTimeouts                int
 	tSend, tDump, tWait, tStart time.Duration
 	began                       time.Time
-	crashReported map[*proc]bool
+	crashReported               map[*proc]bool
 }
 
 func (l *lane) tableExists(name string) bool { _, ok := l.models[name]; return ok }
@@ -351,6 +390,19 @@ func (l *lane) run(cases int, upto int) {
 			l.r.Count("skipped_after_crash_finding", 1)
 			continue
 		}
+		if m, ok := q.Msg.(*pb.DeleteTableRequest); ok && m != nil && !q.Follower && q.Method == mDropTable && isStable(l.env, m.Name) {
+			// (a raw mutant that decodes to) the deletion of a stable table: not sent, the follower
+			// lanes rely on the stable tables staying what they are
+			l.r.Count("skipped_stable_table_deletion", 1)
+			continue
+		}
+		if l.sh.avoidsInverted() && q.Msg != nil && straighten(q.Msg) {
+			if q.IsRaw {
+				l.r.Count("skipped_inverted_bounds_raw", 1)
+				continue
+			}
+			l.r.Count("inverted_bounds_straightened", 1)
+		}
 		if q.Follower && !l.hasFollower() {
 			q.Follower = false
 			if strings.HasPrefix(q.Kind, "follower-") {
@@ -407,6 +459,15 @@ func (l *lane) rawFrom(r *rand.Rand, base *request, mut string) *request {
 	return q
 }
 
+func isStable(e *genEnv, name string) bool {
+	for _, t := range e.stable {
+		if t == name {
+			return true
+		}
+	}
+	return false
+}
+
 func isWrite(q *request) bool {
 	switch q.Method {
 	case mPut, mDelete:
@@ -420,13 +481,19 @@ func isWrite(q *request) bool {
 	return false
 }
 
+// classKey names the class of requests that is not sent again once a request of the class has
+// crashed a server. Classes are narrow on purpose: a table-name class for creations (typed or a
+// raw mutant that decodes), the exact bytes for everything else.
 func classKey(q *request) string {
-	if q.Kind == "probe:hostile-table-name" {
-		if m, ok := q.Msg.(*pb.CreateTableRequest); ok {
-			return "hostile:" + nameClass(m.Name)
-		}
+	if m, ok := q.Msg.(*pb.CreateTableRequest); ok && m != nil && q.Method == mCreate && m.Name != "" && !plainName(m.Name) {
+		return "hostile:" + nameClass(m.Name)
 	}
-	return q.Method + "|" + q.Kind
+	b := q.Raw
+	if !q.IsRaw && q.Msg != nil {
+		b, _ = q.Msg.MarshalVT()
+	}
+	h := sha256.Sum256(b)
+	return q.Method + "|" + q.Kind + "|" + hex.EncodeToString(h[:8])
 }
 
 func nameClass(s string) string {
@@ -463,9 +530,9 @@ func (l *lane) catalogue() []*request {
 	mk := func(method, kind string, follower bool, branch int) *request {
 		seq++
 		r := rand.New(rand.NewSource(int64(7000 + seq)))
-		e.forceKind, e.forceBranch = kind, branch
+		e.forceKind, e.forceBranch, e.minimalTxn = kind, branch, isNestedRule(kind)
 		q := e.typed(r, 0, method, follower)
-		e.forceKind, e.forceBranch = "", 0
+		e.forceKind, e.forceBranch, e.minimalTxn = "", 0, false
 		// catalogue cases address a stable table (except the table rules themselves)
 		if !strings.HasSuffix(kind, "-table") {
 			setTable(q.Msg, []byte("t0"))
@@ -899,16 +966,11 @@ func nilIfEmpty(b []byte) []byte {
 	return b
 }
 
-// waitUsable waits until a freshly created table answers linearizable reads. It returns false
-// when the lane cannot go on with this request (server died: reported; or watchdog).
+// waitUsable waits until every table the server lists and the model does not know yet (the one
+// just created, under whatever name the server gave it) answers linearizable and local reads:
+// a table's Raft group starts asynchronously. It returns false when the lane cannot go on with
+// this request (a server died: reported).
 func (l *lane) waitUsable(q *request) bool {
-	var name string
-	switch m := q.Msg.(type) {
-	case *pb.CreateTableRequest:
-		name = m.Name
-	default:
-		return true // raw mutant that does not decode: nothing was created under a known name
-	}
 	t0 := time.Now()
 	defer func() { l.tWait += time.Since(t0) }()
 	deadline := time.Now().Add(30 * time.Second)
@@ -918,13 +980,22 @@ func (l *lane) waitUsable(q *request) bool {
 			return false
 		}
 		ctx, cancel := context.WithTimeout(context.Background(), 3*time.Second)
-		_, err := l.cli.lkv.Range(ctx, &pb.RangeRequest{Table: []byte(name), Key: []byte{0}, RangeEnd: []byte{0}, Linearizable: true, CountOnly: true})
-		cancel()
-		if err == nil {
-			return true
+		lst, err := l.cli.ltab.List(ctx, &pb.ListTablesRequest{})
+		ready := err == nil
+		for i := 0; ready && i < len(lst.GetTables()); i++ {
+			name := lst.Tables[i].Name
+			if l.tableExists(name) {
+				continue
+			}
+			if _, err := l.cli.lkv.Range(ctx, &pb.RangeRequest{Table: []byte(name), Key: []byte{0}, RangeEnd: []byte{0}, Linearizable: true, CountOnly: true}); err != nil {
+				ready = false
+			} else if _, err := dumpTable(l.cli.lkv, name); err != nil {
+				ready = false
+			}
 		}
-		if c := status.Code(err); c == codes.NotFound || c == codes.InvalidArgument {
-			return true // the (mutated) request did not create a table of that name after all
+		cancel()
+		if ready {
+			return true
 		}
 		time.Sleep(20 * time.Millisecond)
 	}
@@ -932,7 +1003,7 @@ func (l *lane) waitUsable(q *request) bool {
 		l.crashed(q, expectation{Class: expUnknown}, outcome{Code: codes.OK, Msg: "server died after answering OK"})
 		return false
 	}
-	l.r.Inconclusive(fmt.Sprintf("lane %d: table %q created but not readable within the watchdog", l.id, trunc(name, 40)))
+	l.r.Inconclusive(fmt.Sprintf("lane %d case %d: a created table is not readable within the watchdog", l.id, q.N))
 	return true
 }
 
@@ -1043,13 +1114,22 @@ func (l *lane) crashed(q *request, exp expectation, out outcome) {
 		if len(lines) > 0 {
 			what = lines[0]
 		}
-		kind := strings.ReplaceAll(strings.ReplaceAll(q.Kind, ":", "-"), "probe-hostile-table-name", "")
-		if q.Kind == "probe:hostile-table-name" {
-			if m, ok := q.Msg.(*pb.CreateTableRequest); ok {
-				kind = nameClass(m.Name)
-			}
+		if pebbleBoundsInvariant(lines) {
+			// Not the product's behaviour: pebble compiles its iterator-bounds assertion in only
+			// under the race / invariants build tags (internal/invariants), and this binary is a
+			// -race build. A release build answers such a read with an empty range.
+			l.r.Count("race_build_only_pebble_invariant_terminations", 1)
+			l.sh.noteOnce("pebble-bounds", fmt.Sprintf("NOTE race-build only: the %s process was terminated by pebble's iterator-bounds assertion (%s) after a read with range_end <= key reached an sstable; "+
+				"pebble compiles that assertion in only under the race/invariants build tags, a release build is not affected. Reads with inverted bounds are not generated for the rest of the run.", role, trunc(what, 160)))
+			l.sh.sample("race-build-artefact", map[string]any{"race_build_only_termination": trunc(what, 300), "in_flight": trunc(render(q.Msg), 200), "previous_requests": l.recent})
+			l.sh.setAvoidInverted()
+			l.restart()
+			return
 		}
-		if exp.Rule != "" {
+		kind := strings.ReplaceAll(q.Kind, ":", "-")
+		if m, ok := q.Msg.(*pb.CreateTableRequest); ok && m != nil && q.Method == mCreate && m.Name != "" && !plainName(m.Name) {
+			kind = nameClass(m.Name)
+		} else if exp.Rule != "" {
 			kind = exp.Rule
 		}
 		sig := fmt.Sprintf("crash-%s-%s-%s", role, methodSlug(q.Method), kind)
@@ -1059,6 +1139,11 @@ func (l *lane) crashed(q *request, exp expectation, out outcome) {
 		l.noteRaces(p)
 	}
 	l.sh.disable(classKey(q))
+	l.restart()
+}
+
+// restart brings up a fresh cluster (fresh directories) after a server died.
+func (l *lane) restart() {
 	l.restarts++
 	if l.restarts > 8 {
 		l.r.Note(fmt.Sprintf("lane %d: stopped after %d restarts", l.id, l.restarts))
